@@ -13,6 +13,9 @@ for id in $ids; do
   git -C /repo checkout -q -- .
   case $rc in 0) v=MISSED;; 1) v=CAUGHT;; *) v=UNDECIDED;; esac
   echo "$id ($pid): $v rc=$rc :: $(echo "$out" | grep -E '^VIOLATION|^UNDECIDED' | head -3 | tr '\n' ' ')"
+  obl=$(echo "$out" | grep -E '^obligation .* FAILED' | sed -E 's/^obligation ([^ ]+) FAILED.*/\1/' | head -4 | tr '\n' ' ')
+  grep -v "^$id	" seeded/RESULTS.tsv 2>/dev/null > seeded/RESULTS.tmp; mv seeded/RESULTS.tmp seeded/RESULTS.tsv
+  printf '%s\t%s\t%s\t%s\n' "$id" "$pid" "$v" "$obl" >> seeded/RESULTS.tsv
   echo "$out" > /tmp/seedrun_$id.log
 done
 # evidence files were rewritten while changes were applied: regenerate them on the clean tree
